@@ -3,7 +3,11 @@ from vlib.runner import Batch
 
 ID = "C16"
 LEAN_PROPS = ["FcpptProofs.Props.C16"]
-HARNESS = {"src": "harness/c16.cpp"}
+import os as _os
+_H = _os.path.join(_os.path.dirname(_os.path.dirname(_os.path.abspath(__file__))), "harness")
+# the per-function evaluation is spread over seven translation units that the runner compiles in parallel; they are given
+# as absolute paths in `repo_srcs` (os.path.join(REPO, <absolute>) is the absolute path itself)
+HARNESS = {"src": "harness/c16.cpp", "repo_srcs": [_os.path.join(_H, f"c16_{p}.cpp") for p in "abcdefg"]}
 TIE = ("hand-written loop-level model (FcpptModel/Model/C16.lean) + differential correspondence against the real templates, "
        "exhaustive over sequences over {0,1,2} up to length 6 for every function, source kind and parameter table")
 RULE = ("`d fn src params len` = digest over all 3^len sequences of one function/source/parameter table (weight 3^len); "
